@@ -1,30 +1,37 @@
 """C16  Computations on different threads never interfere.
 
 PROVED (Lean, AsynqModel.Threads): the model is ONE global state (thread-indexed carriers, the one process-wide
-deduplicate dict whose keys carry a thread component, objects shared by design) with ONE global step `gStep kg t op`;
-how a thread indexes the carriers and keys the dict is the parameter `kg`.  Theorems: the step of thread t commutes
-with the abstraction to t's own view (its carriers + its slice of the dict) and, if `kg` separates the threads, leaves
-every other thread's view unchanged; hence under EVERY schedule - for fixed operation lists and for adaptive
-computations whose next operation is any function of what the thread has observed - each thread that does not itself
-use an object shared by design ends with the view and the records of running alone.  With the thread missing from the
-deduplicate key, with thread-local holders turned into module state, or for a thread that reads a shared scoped value /
-alru cache, the same statement is refuted (counterexample theorems).
+deduplicate dict whose keys carry a thread component, objects the program shares between threads) with ONE global step
+`gStep kg perf t op`; how a thread indexes the carriers and keys the dict is the parameter `kg`, the state the threads
+start from is the parameter `g0`.  Theorems: the step of thread t commutes with the abstraction to t's own view (its
+carriers + its slice of the dict) and, if `kg` separates the threads, leaves every other thread's view unchanged; hence
+under EVERY schedule from EVERY start state - for fixed operation lists and for adaptive computations whose next
+operation is any function of what the thread has observed - each thread that does not itself use a shared object ends
+with the view and the records of running alone; WITHOUT that hypothesis all its records that are not themselves
+operations on a shared object still equal those of its run alone (under COLLECT_PERF_STATS up to its first cached call).
+With the thread missing from the deduplicate key, with thread-local holders turned into module state, for two threads
+not created through threading.Thread on one OS thread ident (the library as written: an OPEN FINDING), or for a thread
+that reads a shared scoped value / alru cache (the property as stated is false of such programs: an OPEN FINDING), the
+statement is refuted (counterexample theorems).
 
-NOT PROVABLE, SHOWN BY THE RUNS ONLY: that the Python functions behave like `gStep Keying.real`, and behaviour under
-real OS interleavings.  Four kinds of cases tie the model to the current tree:
+NOT PROVABLE, SHOWN BY THE RUNS ONLY: that the Python functions behave like `gStep (Keying.cpython aliens)`, and
+behaviour under real OS interleavings.  Four kinds of cases tie the model to the current tree:
   inv   an `ast` inventory of asynq/*.py (module-/class-level mutable objects, threading.local, ContextVar, rebound
         globals incl. `globals()[..]`, run-time writes to class attributes, mutable defaults, closure caches, function
-        attributes, attributes of held objects), compared (in Lean) with the model's list of thread-indexed components
-        and its list of process-wide / shared-by-design objects; plus the list of carriers the fixed probes exercise
-        (a component without a probe is reported);
+        attributes, attributes of held objects), compared (in Lean) with the model's HAND-WRITTEN list of thread-indexed
+        components and its list of process-wide / shared objects; plus the list of carriers the fixed probes are
+        labelled with (a component without a probe is reported).  A tripwire on today's carriers, not a consequence of
+        the property: no theorem is about it;
   hist  K threads execute generated histories of operations IN LOCK-STEP under a generated schedule (so thread B acts
         while thread A is inside a task, in the middle of a flush, in asyncio mode, holds an in-flight deduplicated
         task, is inside `with V.override(..)` of a scoped value both use ...): every observation is compared with the
-        model run under the same schedule (CORR) and - up to the thread's first use of a shared-by-design object - with
-        the same thread running alone (SPEC).  The fixed write-in-A/observe-in-B probes are of this kind;
+        model run under the same schedule (CORR) and with the same thread running alone (SPEC: first everything no
+        shared object can influence, then everything).  Some threads are started with a COPY of a context that is in
+        asyncio mode (`Thread(target=copy_context().run)`, `asyncio.to_thread` from inside `fn.asyncio()`); their run
+        alone is started the same way.  The fixed write-in-A/observe-in-B probes are of this kind;
   life  hist cases whose threads live one after the other, each created on the recycled OS thread ident of its joined
         predecessor, which left an un-awaited deduplicated task behind (a deduplication scope must belong to the thread,
-        not to its ident);
+        not to its ident); with threading.Thread threads and with `_thread.start_new_thread` threads;
   prog  K (2..16) free-running threads, sys.setswitchinterval(1e-6), repeated runs, each interpreting a generated asynq
         program (DebugBatchItem / sync(), @deduplicate functions shared by all threads with equal keys, AsyncContext,
         nested synchronous calls, COLLECT_PERF_STATS, get_active_task()): the per-thread trace (results, batch
@@ -38,71 +45,106 @@ import random
 PID = "C16"
 LEVEL = "proof"
 LEAN_MODULES = ["AsynqModel.Theorems.C16"]
-THEOREMS = [
+HEADLINE = [
     # the sharing structure of the ONE global step
     "AsynqModel.Threads.C16_gstep_simulates_local",
     "AsynqModel.Threads.C16_gstep_frames_others",
     "AsynqModel.Threads.C16_never_observes_others",
-    # non-interference derived from it, for every schedule
+    # non-interference derived from it, for every schedule and every start state
     "AsynqModel.Threads.C16_noninterference",
-    "AsynqModel.Threads.C16_noninterference_prefix",
+    "AsynqModel.Threads.C16_noninterference_strict",
     "AsynqModel.Threads.C16_schedule_independent",
     "AsynqModel.Threads.C16_adaptive_noninterference",
     "AsynqModel.Threads.C16_adaptive_schedule_independent",
-    # necessity: the same step with a keying that does not separate the threads / with shared-by-design objects
+    # the library as written with threads that were not created through threading.Thread
+    "AsynqModel.Threads.C16_cpython_noninterference_partial",
+    "AsynqModel.Threads.C16_alien_ident_counterexample",
+    # necessity: the same step with a keying that does not separate the threads / objects shared by the program / the
+    # cut of the strict comparison under COLLECT_PERF_STATS / the start context
     "AsynqModel.Threads.C16_no_thread_in_key_counterexample",
     "AsynqModel.Threads.C16_module_state_counterexample",
     "AsynqModel.Threads.C16_shared_object_counterexample",
+    "AsynqModel.Threads.C16_strict_cut_counterexample",
+    "AsynqModel.Threads.C16_inherited_mode_counterexample",
     # the observer
-    "AsynqModel.Threads.C16_spec_holds",
-    # the same for the library's keying, in the functions the driver evaluates (inter / aloneOn / alone / spec)
+    "AsynqModel.Threads.C16_spec_own_holds",
+    "AsynqModel.Threads.C16_spec_holds_partial",
+    "AsynqModel.Threads.C16_spec_fails_only_on_shared_objects",
+]
+# hold by construction of the model / are instances of the theorems above in the functions the driver evaluates; the
+# content is the correspondence
+BY_CONSTRUCTION = [
+    "AsynqModel.Threads.C16_real_separates",
     "AsynqModel.Threads.C16_noninterference_library",
     "AsynqModel.Threads.C16_spec_holds_library",
 ]
+THEOREMS = HEADLINE + BY_CONSTRUCTION
 BUILDS = {"quick": ["py"], "thorough": ["py", "cy"]}
 CASE_TIMEOUT = 100
 RULE = ("inv: one AST inventory of asynq/*.py per run + the list of probed carriers. hist: generated lock-step histories "
         "(2-6 threads, 6-40 operations per thread over scheduler/debug-batch/profiler/deduplicate/asyncio-mode, nested task "
         "bodies up to depth 3, flushes paused in the middle; 35% of them with some threads also using the scoped value and "
-        "the alru_cache function that all threads of the run share) under a generated schedule (fine / bursty / round-robin; "
-        "30% with identical histories on all threads), plus a FIXED list of write-in-A/observe-in-B probes: one per carrier "
-        "of the model's component list and one for the shared-by-design objects, each with both COLLECT_PERF_STATS settings "
-        "(14, incl. the thread-lifetime probe); quick 400 / thorough 6000. life: lock-step histories whose threads live ONE AFTER "
-        "THE OTHER - each is created after its predecessor was joined, on the predecessor's recycled OS thread ident "
-        "(candidate threads with another ident are parked, up to 200 tries; feature thread-ident-recycled counts the cases "
-        "where every successor got it), every thread leaves an un-awaited deduplicated task and every later thread asks "
-        "for the same function and key; quick 40 / thorough 400. prog: 2-16 free-running threads started together (switch interval 1e-6; 3 "
-        "repetitions quick / 5 thorough) interpreting generated asynq programs that share deduplicated functions, keys and "
-        "batch names, 30% with threads serving asynq functions through asyncio.run(fn.asyncio()); quick 160 + one per thread "
-        "count 2..16 / thorough 700 + 15. non-trivial = a hist case with >= 2 threads, >= 8 steps and at least one thread "
-        "inside a task body while others act, or a prog case with >= 2 threads, a flush of >= 2 items and >= 1 deduplicate "
-        "hit; distinct by case hash")
+        "the alru_cache function that all threads of the run share; 15% with some threads started in a copy of a context "
+        "that is in asyncio mode - Thread(target=copy_context().run) or asyncio.to_thread inside fn.asyncio()) under a "
+        "generated schedule (fine / bursty / round-robin; 30% with identical histories on all threads), plus a FIXED list "
+        "of write-in-A/observe-in-B probes: one per carrier of the model's component list, one for the shared objects, one "
+        "thread-lifetime probe and two start-context probes, each with both COLLECT_PERF_STATS settings, and one "
+        "thread-lifetime probe with threads not created through threading.Thread (19 = 9 x 2 + 1); quick 400 / thorough "
+        "6000. life: lock-step histories whose threads live ONE AFTER THE OTHER - each is created after its predecessor "
+        "was joined, on the predecessor's recycled OS thread ident (candidate threads with another ident are parked, up to "
+        "200 tries; feature thread-ident-recycled counts the cases where every successor got it), every thread leaves an "
+        "un-awaited deduplicated task and every later thread asks for the same function and key; quick 40 / thorough 400 "
+        "with threading.Thread threads, quick 12 / thorough 120 with _thread.start_new_thread threads (COLLECT_PERF_STATS "
+        "off, the left-behind task is asked for at top level and never run, all other deduplicate keys private to one "
+        "thread). prog: 2-16 free-running threads started together (switch interval 1e-6; 3 repetitions quick / 5 "
+        "thorough) interpreting generated asynq programs that share deduplicated functions, keys and batch names, 30% with "
+        "threads serving asynq functions through asyncio.run(fn.asyncio()); quick 160 + one per thread count 2..16 / "
+        "thorough 700 + 15. non-trivial = a hist case with >= 2 threads, >= 8 steps and at least one thread inside a task "
+        "body while others act, or a prog case with >= 2 threads, a flush of >= 2 items and >= 1 deduplicate hit; distinct "
+        "by case hash")
 TRUSTED = [
     "hand-written Lean model AsynqModel.Lib.Threads (one global state, `gStep`); that each Python operation behaves like "
-    "`gStep Keying.real` is NOT proved - it is tied by this check's inventory, lock-step histories and runs",
-    "Python harness checks/c16.py: lock-step turn taking, identity->token maps (999999 = an object the thread did not "
-    "create), on_before_batch_flush / on_computed hooks, read-only len(TaskScheduler._tasks/_batches), the op records it "
-    "emits for scheduler-internal steps (push/pop/schedBatch) at the points where the code performs them",
+    "`gStep (Keying.cpython aliens)` is NOT proved - it is tied by this check's inventory, lock-step histories and runs",
+    "Python harness checks/c16.py: lock-step turn taking, identity->token maps (999999 / `(foreign ..)` = an object the "
+    "thread did not create), on_before_batch_flush / on_computed hooks, read-only len(TaskScheduler._tasks/_batches), the "
+    "op records it emits for scheduler-internal steps (push/pop/schedBatch) at the points where the code performs them, "
+    "how it starts threads (threading.Thread, copy_context().run, asyncio.to_thread, _thread.start_new_thread) and that a "
+    "thread's run alone is started the same way (a thread not created through threading.Thread runs alone as a "
+    "threading.Thread)",
     "the OS / CPython thread scheduler: interleavings are sampled (tiny switch interval, repeated runs), not enumerated",
-    "threading.local, contextvars, threading.current_thread of CPython (`Keying.real`: one slot / one key per thread)",
+    "CPython 3.12 threading.local (one slot per thread, also for threads not created through threading.Thread), "
+    "contextvars (one context per thread; a copy is a snapshot), threading.current_thread (a distinct Thread object per "
+    "threading.Thread thread; ONE cached _DummyThread per OS thread ident for other threads) - `Keying.cpython`",
 ]
 ASSUMPTIONS = [
     "process-wide-by-design state is excluded: asynq._debug.options (COLLECT_PERF_STATS is a parameter of the model), "
     "debug.py hook flags, constants; DeduplicateDecorator.tasks is process-wide but keyed with the thread (modelled as the "
     "one shared dict, separation proved)",
-    "objects that the PROGRAM shares between threads are outside the statement (hypothesis `isShared = false` on the "
-    "thread's own operations in every non-interference theorem; Threads.knownShared lists them with reasons): an "
-    "AsyncScopedValue / async_override target used by several threads (thread B reads 5 while thread A is inside "
-    "`with V.override(5)`: scoped_value.py:62-68 writes the one object), the caches of alru_cache / acached_per_instance / "
-    "alazy_constant (one per decorated function, like functools.lru_cache).  Modelled (Shared.sv, Shared.lru), generated "
-    "and compared with the model (CORR); the model refutes non-interference for them (C16_shared_object_counterexample); "
-    "SPEC compares a thread with its run alone only up to its first operation on such an object",
+    "objects that the PROGRAM shares between threads are INSIDE the statement as written and the property is false of "
+    "them (OPEN FINDING hist/fail:interference:shared-object, by design of the library): an AsyncScopedValue / "
+    "async_override target used by several threads (thread B reads 5 while thread A is inside `with V.override(5)`: "
+    "scoped_value.py:62-68 writes the one object), the caches of alru_cache / acached_per_instance / alazy_constant (one "
+    "per decorated function, like functools.lru_cache).  Modelled (Shared.sv, Shared.lru), generated, compared with the "
+    "model (CORR) and with the run alone (SPEC, last clause); the non-interference theorems carry the hypothesis "
+    "`isShared = false` on the thread's OWN operations (necessary: C16_shared_object_counterexample), "
+    "C16_noninterference_strict needs no hypothesis",
+    "the context a thread STARTS with is an input of its computation, not interference (explicit: parameter g0 of every "
+    "theorem, GState.start, C16_inherited_mode_counterexample): a worker of asyncio.to_thread / Thread(target="
+    "copy_context().run) created from inside fn.asyncio() begins in asyncio mode, so a synchronous asynq call in it "
+    "raises RuntimeError and .asynq() returns a coroutine where the same function in a fresh thread works; generated "
+    "(start-context=..), the run alone is started the same way.  After its start nothing the creator does changes it",
+    "threads not created through threading.Thread: the deduplication scope belongs to the OS thread ident (OPEN FINDING "
+    "hist-alien/fail:observes-foreign:deduplicate; C16_cpython_noninterference_partial needs identsDistinct, "
+    "C16_alien_ident_counterexample); generated only as thread lifetimes with COLLECT_PERF_STATS off, the inherited "
+    "task is never run",
     "threads do not hand asynq objects (tasks, batch items, contexts) to each other",
     "programs are free of flush-priority ties (a tie is broken by set iteration order, i.e. by object addresses, "
     "also single-threaded); tie-prone generated programs are collapsed to one batch name",
     "asyncio event loops (one ContextVar context per asyncio task) are C15's subject; here a thread is one context",
     "the adaptive theorems treat a computation as a deterministic function of the thread's own records; the harness "
     "programs are of that kind (no clocks, no randomness, no reads of other threads' objects)",
+    "operation-level atomicity: preemption INSIDE one modelled operation (inside DeduplicateDecorator.asynq, inside "
+    "_flush) is not in the model; only the free-running prog cases exercise it",
 ]
 
 FOREIGN = 999999
@@ -119,7 +161,7 @@ SIMPLE_IN_BLOCK = ["getSched", "snap", "getActive", "mkItem", "profIncr", "profF
                    "lruCall", "dedupCall"]
 
 
-def _gen_hops(rng, n, shared=False):
+def _gen_hops(rng, n, shared=False, mode0=False):
     """hops of one thread for a lock-step history; keeps the little bookkeeping needed for validity: nesting depth,
     asyncio-mode flag (a task created in asyncio mode is a coroutine: no body), batch sizes (no priority ties).
     `shared`: the thread also uses the objects that the threads of the run share by design (one AsyncScopedValue, one
@@ -127,7 +169,7 @@ def _gen_hops(rng, n, shared=False):
     hops = []
     depth = 0
     am = []            # saved flags
-    mode = False
+    mode = bool(mode0)   # a thread started with a copied context begins in its creator's asyncio mode
     sizes = {}
     budget = n
     while budget > 0:
@@ -244,11 +286,22 @@ def gen_hist(rng, k=None, n=None):
     # 35% of the histories also use the objects shared by design (by some of their threads)
     sh = rng.random() < 0.35
     users = [sh and rng.random() < 0.6 for _ in range(k)]
-    threads = [_gen_hops(rng, n, shared=users[t]) for t in range(k)]
+    # 15%: some threads are started with a COPY of a context that is in asyncio mode (1 = Thread(target=ctx.run),
+    # 2 = asyncio.to_thread from inside fn.asyncio() served by another thread)
+    inh = rng.random() < 0.15
+    inherit = [(rng.choice([1, 1, 2]) if inh and rng.random() < 0.5 else 0) for _ in range(k)]
+    threads = [_gen_hops(rng, n, shared=users[t], mode0=inherit[t]) for t in range(k)]
     if rng.random() < 0.3:   # identical histories on all threads: every name and key collides
+        if any(inherit) and not all(inherit):
+            # the validity bookkeeping (no scheduler reset inside a task body) must hold for the threads that start
+            # outside asyncio mode, where tasks really run
+            threads[0] = _gen_hops(rng, n, shared=users[0], mode0=False)
         threads = [json.loads(json.dumps(threads[0])) for _ in range(k)]
-    return {"kind": "hist", "perf": rng.randrange(2), "threads": threads,
+    case = {"kind": "hist", "perf": rng.randrange(2), "threads": threads,
             "order": _order(rng, threads, rng.choice(["fine", "fine", "burst", "rr"]))}
+    if any(inherit):
+        case["inherit"] = inherit
+    return case
 
 
 def gen_life(rng, k=None):
@@ -267,6 +320,28 @@ def gen_life(rng, k=None):
             first.append(["taskLeave"])
         threads.append(first + hops + [["dedupCall", f, key]])
     return {"kind": "hist", "perf": rng.randrange(2), "threads": threads, "life": 1,
+            "order": [t for t, hops in enumerate(threads) for _ in hops]}
+
+
+ALIEN_KEY = (1, 2)      # the (function, key) whose task every thread of an alien-lifetime case leaves behind
+
+
+def gen_life_alien(rng, k=None):
+    """thread lifetimes of threads that were NOT created through threading.Thread (`_thread.start_new_thread`, like the
+    threads of a C extension): the same as `gen_life`, COLLECT_PERF_STATS off.  The reserved (function, key) is asked for
+    at top level only - as the first and the last operation of every thread - and never run (a thread that is handed
+    the dead thread's task reports it and leaves it alone); all other deduplicate keys are private to one thread."""
+    k = k or rng.choice([2, 2, 3])
+    f, key = ALIEN_KEY
+    threads = []
+    for t in range(k):
+        hops = _gen_hops(rng, rng.choice([2, 4, 8]))
+        for h in hops:       # every other deduplicate key is used by one thread only (any un-awaited task is inherited)
+            if h[0] in ("dedupCall", "dirty", "taskEnter") and len(h) == 3:
+                h[2] += 10 * (t + 1)
+        first = [["dedupCall", f, key]] if t > 0 else []
+        threads.append(first + hops + [["dedupCall", f, key]])
+    return {"kind": "hist", "perf": 0, "threads": threads, "life": 1, "alien": 1,
             "order": [t for t, hops in enumerate(threads) for _ in hops]}
 
 
@@ -314,6 +389,23 @@ def probes():
                                 [["dedupCall", 0, 1], ["getActive"], ["taskEnter", 0, 1], ["taskLeave"], ["dedupCall", 0, 1],
                                  ["mkItem", 1], ["profIncr"]]],
                     "order": [0] * 3 + [1] * 7})
+        # start context (second audit N4b): B is started with a COPY of a context in asyncio mode (1: Thread(target=
+        # copy_context().run), 2: asyncio.to_thread from inside fn.asyncio()) while A enters and leaves asyncio mode
+        # itself; B's mode is the copied one whatever A does, and B's run alone (started the same way) is the same
+        for how in (1, 2):
+            c = _probe([["amGet"], ["amEnter"], ["dedupCall", 1, 2], ["amExit"], ["amGet"], ["dedupCall", 1, 2], ["taskEnter"],
+                        ["amGet"], ["taskLeave"], ["lruCall", 1]],
+                       [["amGet"], ["dedupCall", 1, 2], ["taskEnter"], ["taskLeave"], ["lruCall", 1], ["amEnter"], ["amGet"],
+                        ["amExit"], ["amGet"], ["mkItem", 1]], perf, ["asynq_to_async", "_asyncio_mode"])
+            c["inherit"] = [0, how]
+            res.append(c)
+    # thread lifetimes of threads not created through threading.Thread (second audit N4c): A leaves an in-flight
+    # deduplicated task and ends; B, started afterwards with _thread.start_new_thread on A's thread ident, asks for it
+    res.append({"kind": "hist", "perf": 0, "life": 1, "alien": 1, "probe": 1, "comp": ["tools", "DeduplicateDecorator.tasks"],
+                "threads": [[["dedupCall", 1, 2], ["mkItem", 1], ["profIncr"]],
+                            [["dedupCall", 1, 2], ["getActive"], ["dedupCall", 0, 1], ["taskEnter", 0, 1], ["taskLeave"],
+                             ["mkItem", 1], ["dedupCall", 1, 2]]],
+                "order": [0] * 3 + [1] * 7})
     return res
 
 
@@ -373,6 +465,28 @@ def gen_prog(rng, k=None, reps=3):
     return {"kind": "prog", "perf": rng.randrange(2), "threads": threads, "dd": dd, "reps": reps}
 
 
+# which hops WRITE / OBSERVE which carrier of the model's component list: a probe counts for the carrier it is labelled
+# with only if its first thread performs a writing hop and its second thread an observing hop of that carrier
+CARRIER_HOPS = {
+    ("scheduler", "_state"): ({"taskEnter", "resetSched", "useItems"}, {"snap", "getActive", "getSched"}),
+    ("batching", "_debug_batch_state"): ({"mkItem", "useItems"}, {"mkItem", "useItems"}),
+    ("profiler", "_state"): ({"profAppend", "profIncr"}, {"profIncr", "profFlush"}),
+    ("tools", "DeduplicateDecorator.tasks"): ({"dedupCall", "taskEnter"}, {"dedupCall"}),
+    ("asynq_to_async", "_asyncio_mode"): ({"amEnter"}, {"amGet"}),
+}
+
+
+def probed_carriers():
+    res = set()
+    for p in probes():
+        comp = tuple(p["comp"]) if p.get("comp") else None
+        if comp in CARRIER_HOPS and len(p["threads"]) >= 2:
+            w, o = CARRIER_HOPS[comp]
+            if {h[0] for h in p["threads"][0]} & w and {h[0] for h in p["threads"][1]} & o:
+                res.add(comp)
+    return sorted(res)
+
+
 def _atom(x):
     """a string as one S-expression atom"""
     return "".join(ch if (ch.isalnum() or ch in "._:*-[]") else "_" for ch in str(x)) or "_"
@@ -397,6 +511,7 @@ def plan(tier, seed):
     cases += probes()
     cases += [gen_hist(rng) for _ in range(400 if quick else 6000)]
     cases += [gen_life(rng) for _ in range(40 if quick else 400)]
+    cases += [gen_life_alien(rng) for _ in range(12 if quick else 120)]
     cases += [gen_prog(rng, reps=3 if quick else 5) for _ in range(160 if quick else 700)]
     # every thread count once more with identical programs (all keys and names collide)
     for k in range(2, 17):
@@ -418,6 +533,8 @@ def shrink(case):
             c["threads"] = th[:i] + th[i + 1:]
             if kind == "hist":
                 c["order"] = [t - (1 if t > i else 0) for t in case["order"] if t != i]
+                if case.get("inherit"):
+                    c["inherit"] = case["inherit"][:i] + case["inherit"][i + 1:]
             yield c
     if kind == "prog":
         # a failure of a free-running case is a race: candidates get more repetitions so that it shows again
@@ -487,6 +604,8 @@ def neighbours(case, rng):
         yield gen_hist(rng, k=rng.choice([2, 3]), n=rng.choice([10, 24]))
     for _ in range(8):
         yield gen_life(rng)
+    for _ in range(4):
+        yield gen_life_alien(rng)
     for _ in range(16):
         c = gen_prog(rng, k=rng.choice([2, 4, 8]), reps=3)
         if rng.random() < 0.7:
@@ -495,7 +614,17 @@ def neighbours(case, rng):
 
 
 def signature(case, v):
-    return "%s/%s" % (case.get("kind"), v["spec"])
+    """WHAT fails: the kind of case (lock-step histories of threads not created through threading.Thread apart, so that
+    the finding recorded for them cannot hide a deduplication-scope defect of ordinary threads), the clause of the
+    observer, and whether the model disagreed with the implementation as well (a recorded finding is recognised only
+    when the model MIRRORS what the implementation did)"""
+    kind = case.get("kind")
+    if kind == "hist" and case.get("alien"):
+        kind = "hist-alien"
+    sig = "%s/%s" % (kind, v["spec"])
+    if v.get("corr", "ok") != "ok":
+        sig += "+model-disagrees"
+    return sig
 
 
 # ---------------------------------------------------------------------------------------------------
@@ -845,6 +974,7 @@ class Hang(Exception):
 
 
 _ENV = None
+_KEEP = []   # worlds of the cases whose threads were not created through threading.Thread (see run_case)
 REG = {}     # threading.get_ident() -> Recorder of the run executing on that thread (harness state, not asynq's)
 
 
@@ -878,7 +1008,7 @@ class World(object):
         self.DD = [env.make_dd(f) for f in range(3)]
         self.V = env.make_sv()       # ONE AsyncScopedValue for all threads of the run (shared by design)
         self.LRU = env.make_lru()    # ONE @alru_cache() function for all threads of the run (shared by design)
-        self.owner = {}      # id(task) -> thread index
+        self.owner = {}      # id(task) -> (thread index, the token its creator gave it)
 
 
 class Recorder(object):
@@ -1032,14 +1162,18 @@ class Recorder(object):
         if known:
             tok = self.tasks[id(t)]
             self.hits += 1
-        elif self.world.owner.get(id(t), self.t) != self.t:
-            # a task created by ANOTHER thread of this run was handed to this thread
+        elif self.world.owner.get(id(t), (self.t, 0))[0] != self.t:
+            # a task created by ANOTHER thread of this run was handed to this thread: the property sees `foreign`; for
+            # the correspondence the record says which task it was, in the numbering of the thread that created it
             self.keep.append(t)
-            self.emit(op, ["dedup", 1, FOREIGN, FOREIGN] if dedup else ["task", FOREIGN, FOREIGN])
+            if dedup:
+                self.emit(op, ["foreign", ["dedup", 1, self.world.owner[id(t)][1], self.pid_of(t)]])
+            else:
+                self.emit(op, ["task", FOREIGN, FOREIGN])
             return FOREIGN
         else:
-            self.world.owner[id(t)] = self.t
             tok = self.new_tok(t)
+            self.world.owner[id(t)] = (self.t, tok)
             rec = self
             t.on_computed.subscribe(lambda _t, tok=tok: REG.get(env.threading.get_ident(), rec).emit(["taskDone", tok], ["unit"]))
         pid = self.pid_of(t)
@@ -1399,6 +1533,13 @@ def env():
     e.AIO = asynq.asynq()(aio)
     e.asyncio = asyncio
 
+    def serve(f, *a):
+        # an asynq function served through asyncio that pushes blocking legacy work to a thread: the worker thread of
+        # asyncio.to_thread runs `f` in a COPY of this coroutine's context, i.e. in asyncio mode
+        yield asyncio.to_thread(f, *a)
+
+    e.SERVE = asynq.asynq()(serve)
+
     def make_dd(f):
         def ddbody(k):
             rec = cur()
@@ -1481,10 +1622,24 @@ def _thread_main(e, rec, fn):
         REG.pop(ident, None)
 
 
-def _run_threads(e, recs, fns, label):
+def _make_thread(e, rec, fn, name, how=0):
+    """a threading.Thread that runs `rec`: 0 = in a fresh context, 1 = in a COPY of a context that is in asyncio mode
+    (`Thread(target=copy_context().run)`), 2 = as the worker of `asyncio.to_thread(..)` awaited inside `fn.asyncio()`
+    (the thread created here serves the asynq function through asyncio and stays parked on the await meanwhile)"""
+    if how == 1:
+        import contextvars
+        with e.a2a.AsyncioMode():
+            ctx = contextvars.copy_context()
+        return e.threading.Thread(target=ctx.run, args=(_thread_main, e, rec, fn), name=name, daemon=True)
+    if how == 2:
+        return e.threading.Thread(target=lambda: e.asyncio.run(e.SERVE.asyncio(_thread_main, e, rec, fn)), name=name, daemon=True)
+    return e.threading.Thread(target=_thread_main, args=(e, rec, fn), name=name, daemon=True)
+
+
+def _run_threads(e, recs, fns, label, inherit=None):
     ths = []
     for rec, fn in zip(recs, fns):
-        th = e.threading.Thread(target=_thread_main, args=(e, rec, fn), name="c16-%s-%d" % (label, rec.t), daemon=True)
+        th = _make_thread(e, rec, fn, "c16-%s-%d" % (label, rec.t), (inherit or {}).get(rec.t, 0))
         ths.append(th)
     import time
     for th in ths:
@@ -1506,18 +1661,48 @@ def _run_threads(e, recs, fns, label):
         raise (ct() if ct is not None else Hang("a thread never finished"))
 
 
-def _run_successors(e, recs, fns, label):
+class _Alien(object):
+    """a thread started with `_thread.start_new_thread` (no threading.Thread object: `threading.current_thread()` inside
+    it answers a `_DummyThread`), with the little of the Thread interface that `_run_successors` needs"""
+
+    def __init__(self, e, main):
+        import _thread
+        self.started = e.threading.Event()
+        self.done = e.threading.Event()
+        self.ident = None
+
+        def wrap():
+            self.ident = _thread.get_ident()
+            self.started.set()
+            try:
+                main()
+            finally:
+                self.done.set()
+
+        _thread.start_new_thread(wrap, ())
+        self.started.wait(10)
+
+    def is_alive(self):
+        return not self.done.is_set()
+
+    def join(self, timeout=None):
+        self.done.wait(timeout)
+
+
+def _run_successors(e, recs, fns, label, alien=False):
     """thread lifetimes: the threads run ONE AFTER THE OTHER; thread t+1 is created only after thread t has finished and
     been joined, and it is created on the OS thread ident that thread t gave back: CPython hands the ident (the stack) of
     a finished thread to a later one a moment after join() returns, so candidate threads are created until one has that
     ident; the candidates with another ident have done nothing, are never logged, and stay parked (keeping their idents
-    occupied) until the end of the run.  Returns how many successors really got their predecessor's ident."""
+    occupied) until the end of the run.  `alien`: the threads are started with `_thread.start_new_thread` instead of
+    threading.Thread.  Returns how many successors really got their predecessor's ident, and the ident of every thread."""
     import time
     threading = e.threading
     release = threading.Event()
     parked = []
     recycled = 0
     prev = None
+    idents = []
     try:
         for rec, fn in zip(recs, fns):
             chosen = None
@@ -1532,8 +1717,11 @@ def _run_successors(e, recs, fns, label):
                     else:
                         release.wait()
 
-                th = threading.Thread(target=main, name="c16-%s-%d" % (label, rec.t), daemon=True)
-                th.start()
+                if alien:
+                    th = _Alien(e, main)
+                else:
+                    th = threading.Thread(target=main, name="c16-%s-%d" % (label, rec.t), daemon=True)
+                    th.start()
                 if prev is None or th.ident == prev or tries >= 200:
                     chosen = (th, box)
                     break
@@ -1545,6 +1733,7 @@ def _run_successors(e, recs, fns, label):
             if prev is not None and th.ident == prev:
                 recycled += 1
             prev = th.ident
+            idents.append(th.ident)
             box["run"] = True
             box["go"].set()
             deadline = time.time() + 12
@@ -1554,11 +1743,13 @@ def _run_successors(e, recs, fns, label):
                 import __main__
                 ct = getattr(__main__, "CaseTimeout", None)
                 raise (ct() if ct is not None else Hang("a thread never finished"))
+            if alien:
+                time.sleep(0.002)     # `done` is set inside the thread: give the OS thread a moment to end
     finally:
         release.set()
         for th in parked:
             th.join(1)
-    return recycled
+    return recycled, idents
 
 
 def _collapse(node):
@@ -1589,7 +1780,7 @@ def run_case(case):
     e = env()
     if kind == "inv":
         inv = inventory(os.path.dirname(os.path.abspath(e.asynq.__file__)))
-        probed = sorted({tuple(p["comp"]) for p in probes() if p.get("comp")})
+        probed = probed_carriers()
         lines = ["(case threads %d inv 0 0 0)" % cid] + ["(inv %s %s %s)" % tuple(_atom(y) for y in x) for x in inv] + \
                 ["(probe %s %s)" % x for x in probed] + ["(end)"]
         return {"lines": lines, "features": ["kind=inv", "inventory-entries=%d" % len(inv)], "nontrivial": "inventory"}
@@ -1599,6 +1790,11 @@ def run_case(case):
     perf = bool(case.get("perf"))
     reps = 1 if kind == "hist" else int(case.get("reps", 1))
     feats = ["kind=" + kind, "threads=%d" % k, "perf=%d" % perf]
+    inherit = {t: int(h) for t, h in enumerate(case.get("inherit") or []) if h and t < k} if kind == "hist" else {}
+    alien = kind == "hist" and bool(case.get("life")) and bool(case.get("alien"))
+    pre = ["(mode %d 1)" % t for t in sorted(inherit)]
+    for t in sorted(inherit):
+        feats.append("start-context=%s" % ("copy_context.run" if inherit[t] == 1 else "asyncio.to_thread"))
     old_perf = e.debug_options.COLLECT_PERF_STATS
     old_si = sys.getswitchinterval()
     e.debug_options.COLLECT_PERF_STATS = True if perf else False
@@ -1627,7 +1823,7 @@ def run_case(case):
             for t in range(k):
                 sink = []
                 rec = Recorder(e, t, sink, case, World(e), hops=case["threads"][t] if kind == "hist" else None)
-                _run_threads(e, [rec], [fn_for(t)], "a%d" % cid)
+                _run_threads(e, [rec], [fn_for(t)], "a%d" % cid, inherit)     # started the same way as in the concurrent run
                 alone.append(sink)
                 tie = tie or rec.tie
                 if attempt == 1 or not rec.tie:
@@ -1657,11 +1853,15 @@ def run_case(case):
                 for rec in recs:
                     rec.barrier = barrier
             if life:
-                n = _run_successors(e, recs, [fn_for(t) for t in range(k)], "c%d-%d" % (cid, r))
-                feats.append("thread-lifetimes")
+                n, idents = _run_successors(e, recs, [fn_for(t) for t in range(k)], "c%d-%d" % (cid, r), alien)
+                feats.append("thread-lifetimes" + ("-not-threading.Thread" if alien else ""))
                 feats.append("thread-ident-recycled" if n == k - 1 else "thread-ident-not-recycled")
+                if alien:
+                    _KEEP.append(world)      # its functions stay alive: no later case can meet their ids again
+                    cls = sorted(set(idents), key=idents.index)
+                    pre += ["(alien %d %d)" % (t, cls.index(i)) for t, i in enumerate(idents)]
             else:
-                _run_threads(e, recs, [fn_for(t) for t in range(k)], "c%d-%d" % (cid, r))
+                _run_threads(e, recs, [fn_for(t) for t in range(k)], "c%d-%d" % (cid, r), inherit)
             for rec in recs:
                 note(rec)
             for (t, op, obs) in sink:
@@ -1670,7 +1870,7 @@ def run_case(case):
         sys.setswitchinterval(old_si)
         e.debug_options.COLLECT_PERF_STATS = old_perf
     header = "(case threads %d %s %d %d %d)" % (cid, kind, k, 1 if perf else 0, reps)
-    lines = [header] + lines + ["(end)"]
+    lines = [header] + pre + lines + ["(end)"]
     feats.append("records<=%d" % next(b for b in (50, 200, 1000, 5000, 10 ** 9) if len(lines) <= b))
     feats.append("flushes=%s" % ("0" if not stats["flushes"] else "1+"))
     feats.append("max-batch=%d" % min(stats["maxflush"], 6))
